@@ -189,6 +189,34 @@ func init() {
 		i.envst.log = append(i.envst.log, "gast.NewFileVersion")
 		return tuple{v, iface{}}
 	}
+	// func Stat(name string) (FileInfo, error): the file system is environment; the stand-in is an empty one - every
+	// path is reported as not existing (*fs.PathError wrapping ENOENT)
+	intrinsics["os.Stat"] = func(fr *frame, args []value) value {
+		i := fr.i
+		path := i.concValue(args[0], "path").(string)
+		i.envst.log = append(i.envst.log, "os.Stat:"+path)
+		fsPkg := i.prog.ImportedPackage("io/fs")
+		sysPkg := i.prog.ImportedPackage("syscall")
+		if fsPkg == nil || sysPkg == nil {
+			i.path.abort("os.Stat: io/fs or syscall not loaded")
+		}
+		peT := fsPkg.Type("PathError").Type()
+		errnoT := sysPkg.Type("Errno").Type()
+		pe := zero(peT).(structure)
+		st := peT.Underlying().(*types.Struct)
+		for k := 0; k < st.NumFields(); k++ {
+			switch st.Field(k).Name() {
+			case "Op":
+				pe[k] = "stat"
+			case "Path":
+				pe[k] = path
+			case "Err":
+				pe[k] = iface{t: errnoT, v: uintptr(2)} // ENOENT
+			}
+		}
+		var cell value = pe
+		return tuple{iface{}, iface{t: types.NewPointer(peT), v: &cell}}
+	}
 	intrinsics["encoding/json.MarshalIndent"] = func(fr *frame, args []value) value {
 		it := args[0].(iface)
 		fr.i.jsonFr = fr
